@@ -37,7 +37,7 @@ CHECK = {
     "classify": classify,
     "exhaustive": {"quick": False, "thorough": False},
     "timeout": {"quick": 300, "thorough": 3000},
-    "rule": ("seeded random zones (apexes ., c., b.c., A.b.; classes IN, CH, 7; both glue policies): apex SOA 0..2, apex NS "
+    "rule": ("seeded random zones (apexes ., c., b.c., A.b.; classes IN, CH, 7; both glue policies): [labels that only begin with an asterisk; a result set must not hold two equal issues] apex SOA 0..2, apex NS "
              "0..2, 0..4 delegations incl. sibling and nested (occluded) ones, name servers in the authoritative part / "
              "inside the delegation / inside a sibling delegation / under a wildcard / absent / outside the zone, address "
              "and glue records present or absent (A, AAAA, CH-class A), MX, CNAME alone / duplicated / with other data, "
